@@ -127,7 +127,7 @@ func C10(c *core.Ctx) {
 	}}
 	for _, f := range []string{"Sequence", "FragIndex", "FragCount"} {
 		for i, st := range written[f] {
-			g := core.Gate(send, []ssa.Instruction{st}, pos(multi))
+			g := core.GateDeep(send, []ssa.Instruction{st}, pos(multi))
 			h := loopHeader(st.Block())
 			okEvery := h != nil && everyIterationPasses(send, h, func(in ssa.Instruction) bool { return in == st })
 			c.Decide(g.OK && g.PassEdges > 0 && okEvery, "R10.1", fmt.Sprintf("fragment-field-on-every-fragment:%s#%d", f, i), c.Pos(st), f+" is set on every fragment, and only when the packet was split", "LpPacket."+f+" is not set on every fragment of a split packet (or is set on unfragmented packets)")
@@ -300,7 +300,7 @@ func C10(c *core.Ctx) {
 
 	// ---- R10.3
 	var frames []ssa.Instruction
-	for _, ci := range core.FindCalls(send, core.CalleeID{Pkg: "fw/face", Recv: "transport", Name: "sendFrame"}) {
+	for _, ci := range core.FindCallsDeep(send, core.CalleeID{Pkg: "fw/face", Recv: "transport", Name: "sendFrame"}) {
 		frames = append(frames, ci)
 	}
 	c.Floor("R10.3", "sendFrame call sites in sendPacket", len(frames), 1)
@@ -329,7 +329,7 @@ func C10(c *core.Ctx) {
 		}
 		return 0, 0
 	}}
-	g := core.Gate(send, frames, neg(over), pos(fragOn))
+	g := core.GateDeep(send, frames, neg(over), pos(fragOn))
 	c.Decide(g.OK && g.PerLit[0] > 0 && g.PerLit[1] > 0, "R10.3", "oversize-dropped-without-fragmentation", p.Pos(send.Pos()), "no sendFrame is reachable for an oversize packet when fragmentation is disabled", "with fragmentation disabled an oversize packet still reaches sendFrame (it is truncated or sent over the MTU instead of dropped)")
 	// transports
 	if ti := p.Named("fw/face", "transport"); ti != nil {
@@ -389,7 +389,7 @@ func C10(c *core.Ctx) {
 				}
 				return 0, 0
 			}}
-			g := core.Gate(fn, writes, neg(tooBig))
+			g := core.GateDeep(fn, writes, neg(tooBig))
 			c.Decide(len(writes) > 0 && g.OK && g.PassEdges > 0, "R10.3", "transport-mtu-gate:"+tn, p.Pos(fn.Pos()), fmt.Sprintf("%d write(s) unreachable for a frame longer than MTU()", len(writes)), tn+".sendFrame can write a frame longer than the face MTU (siblings drop it first)")
 		}
 	}
@@ -403,7 +403,7 @@ func C10(c *core.Ctx) {
 		})
 		okDel := len(rets) > 0
 		for _, r := range rets {
-			if !core.Precedes(reas, r, func(in ssa.Instruction) bool { return isMapDelete(in, "partialMessageStore") }) {
+			if !core.PrecedesDeep(reas, r, func(in ssa.Instruction) bool { return isMapDelete(in, "partialMessageStore") }) {
 				okDel = false
 			}
 		}
@@ -429,7 +429,7 @@ func C10(c *core.Ctx) {
 				r, _ := core.CallArgs(cc)
 				return core.Same(r, fa.X)
 			}
-			fr := core.MustFollow(fn, core.After(in), isRecompute, nil)
+			fr := core.MustFollowDeep(fn, core.After(in), isRecompute, nil)
 			c.Decide(fr.OK, "R10.6", "options-change-recomputes-overhead:"+core.FuncName(fn), c.Pos(in), "every store to the link-service options is followed by computeHeaderOverhead on all exits", core.FuncName(fn)+" changes the link-service options without recomputing the cached header overhead afterwards (it is computed from the previous options): after enabling local fields or fragmentation the frames exceed the MTU")
 		})
 	}
@@ -463,7 +463,7 @@ func C10(c *core.Ctx) {
 				continue
 			}
 			n++
-			if !core.MustFollow(reas, core.Point{Block: f.E.To, Idx: 0}, isCreate, nil).OK {
+			if !core.MustFollowDeep(reas, core.Point{Block: f.E.To, Idx: 0}, isCreate, nil).OK {
 				okCreate = false
 			}
 		}
@@ -471,7 +471,7 @@ func C10(c *core.Ctx) {
 	}
 
 	// ---- R10.5 reassembly arguments and bounds
-	for _, ci := range core.FindCalls(recv, core.CalleeID{Pkg: "fw/face", Recv: "NDNLPLinkService", Name: "reassemblePacket"}) {
+	for _, ci := range core.FindCallsDeep(recv, core.CalleeID{Pkg: "fw/face", Recv: "NDNLPLinkService", Name: "reassemblePacket"}) {
 		_, a := core.CallArgs(ci.Common())
 		okKey := false
 		if b, ok := core.StripConv(a[1]).(*ssa.BinOp); ok && b.Op == token.SUB {
@@ -528,8 +528,8 @@ func C10(c *core.Ctx) {
 			}
 			return 0, 0
 		}}
-		g1 := core.Gate(recv, []ssa.Instruction{ci}, pos(inRange))
-		g2 := core.Gate(recv, []ssa.Instruction{ci}, pos(bounded))
+		g1 := core.GateDeep(recv, []ssa.Instruction{ci}, pos(inRange))
+		g2 := core.GateDeep(recv, []ssa.Instruction{ci}, pos(bounded))
 		c.Decide(g1.OK && g1.PassEdges > 0 && g2.OK && g2.PassEdges > 0, "R10.5", "reassembly-bounds", c.Pos(ci), "reassembly is entered only with FragIndex < FragCount ≤ a constant bound", "a received frame reaches reassembly with an unchecked FragIndex/FragCount (out-of-range slot or unbounded allocation)")
 	}
 	{
@@ -555,7 +555,7 @@ func C10(c *core.Ctx) {
 				}
 				return 0, 0
 			}}
-			g := core.Gate(reas, []ssa.Instruction{s.Instr}, pos(lt))
+			g := core.GateDeep(reas, []ssa.Instruction{s.Instr}, pos(lt))
 			okSlot = g.OK && g.PassEdges > 0
 		}
 		c.Decide(okSlot, "R10.5", "slot-index-within-stored-message", p.Pos(reas.Pos()), "the slot index is compared with the length of the stored slot slice", "a fragment whose FragIndex lies outside the slot slice allocated by an earlier fragment of the same message indexes out of range")
